@@ -60,6 +60,7 @@ class Dev(object):
     self.consumed = []        # messages the host has taken off the transport, in order
     self.hold = {}            # local id -> withheld OKAY acks (released later by the test script)
     self.withhold = {}        # local id -> acknowledgements kept back for now
+    self.before_ack = {}      # local id -> packets the device sends before it acknowledges the next WRTE
     self.echo = {}            # local id -> payloads the device sends right after acknowledging the next host WRTE
 
   def push(self, cmd, a0, a1, data=''):
@@ -111,6 +112,8 @@ class Dev(object):
       if self.unread_okay.get(a0, 0) > 0 or self.hold.get(a0):
         self.facts.append('X:second-WRTE-before-the-first-was-acknowledged:%d' % a0)
       self.unread_okay[a0] = self.unread_okay.get(a0, 0) + 1
+      for m in self.before_ack.pop(a0, []):
+        self.push(*m)      # what the device had already sent when it got round to acknowledging
       if a0 in self.withhold:
         self.withhold[a0].append(('OKAY', a1, a0))      # the acknowledgement comes late (released by the test script)
         return
@@ -399,6 +402,53 @@ def _run_wfail(case):
   return {'broken': True, 'facts': sorted(set(facts)), 'reopen': True}
 
 
+def _run_closedbuf(case):
+  """the device's last output and its CLSE are read off the wire by the stream's own write() waiting for its
+  acknowledgement; the data is buffered, the stream closed: the following reads still hand out every byte"""
+  ap = _setup()
+  from openhtf.plugs.usb import adb_message as am
+  from openhtf.plugs.usb import usb_exceptions as ue
+  res = {}
+
+  def body(s):
+    dev = Dev(s)
+    conn = ap.AdbConnection(am.AdbTransportAdapter(dev), 4096, 'device:SER:banner')
+    facts = []
+    res['facts'], res['dev'] = facts, dev
+    a = conn.open_stream('a:', timeout_ms=5000)
+    la, ra = a._transport.local_id, dev.remote_of[a._transport.local_id]
+    want = ''
+    for i in range(case['first']):
+      dev.push('WRTE', ra, la, 'out%d;' % i)
+      want += 'out%d;' % i
+    got = ''
+    if case['first'] and case.get('partial'):
+      got += a.read(case['partial'], timeout_ms=5000)       # part of the first packet; the rest stays buffered
+    dev.before_ack[la] = [('WRTE', ra, la, 'last;'), ('CLSE', ra, la, '')]
+    want += 'last;'
+    try:
+      a.write('cmd', timeout_ms=5000)
+    except Exception:  # pylint: disable=broad-except
+      pass       # (the write may report the close; what was received is what counts)
+    for _ in range(10):
+      try:
+        d = a.read(timeout_ms=1000)
+      except ue.AdbStreamClosedError:
+        break
+      except Exception as e:  # pylint: disable=broad-except
+        facts.append('X:read-raised:' + c15._errkind(e, ue))
+        break
+      got += d
+    if got != want:
+      facts.append('X:reader-did-not-obtain-what-the-device-wrote:%s/%s' % (_hex(got), _hex(want)))
+    return True
+  box, s = sched.run(sched.random_chooser(common.Rng('c14c/0'), 0.0), body, max_steps=60000)
+  facts = res.get('facts', []) + list(getattr(res.get('dev'), 'facts', []))
+  if s.deadlock or 'sched_error' in box:
+    facts.append('X:deadlock')
+  return {'broken': True, 'facts': sorted(set(facts)), 'reopen': True}
+
+
 def _run_open(case):
   """a thread opens a new stream while another thread, reading its own stream, is the connection's reader: the device
   answers the OPEN with OKAY and sends the new stream's first data right behind it - both may be demultiplexed by the
@@ -474,6 +524,8 @@ def run_real(case):
     return _run_reopen(case)
   if case.get('kind') == 'wfail':
     return _run_wfail(case)
+  if case.get('kind') == 'closedbuf':
+    return _run_closedbuf(case)
   res = {}
   early = None
   if case.get('early'):
@@ -537,6 +589,8 @@ def classify(case, o):
     return 'reopen/' + case['when']
   if case.get('kind') == 'wfail':
     return 'late-acknowledgement'
+  if case.get('kind') == 'closedbuf':
+    return 'data-buffered-when-the-close-is-handled'
   return '%ds/%dthr/%s' % (case['nstreams'], len(case['threads']), 'dfs' if case.get('choices') is not None else 'rnd')
 
 
@@ -635,6 +689,9 @@ def gen_cases(rng, tier):
     for stale in (['W'], ['Z'], ['W', 'W'], ['W', 'Z']):
       for pre in (0, 1, 3):
         cases.append({'kind': 'reopen', 'when': when, 'stale': stale, 'pre': pre})
+  for first in (0, 1, 2):
+    for partial in (0, 2, 5):
+      cases.append({'kind': 'closedbuf', 'first': first, 'partial': partial})
   # a write whose acknowledgement is late, followed by more writes
   for writes in (2, 3):
     for rel in (None, 0, 1):
